@@ -288,6 +288,10 @@ def C11(ctx):
     # the hash-identified builders drive the unique table in equality-by-hash mode: the table must then be a set
     # keyed by the FULL 64-bit hash (RobinHood refines SetTable with ByHash = TRUE; wide hashes agreeing on 32 bits)
     model_check(ctx, "RobinHood", "MC_RobinHood_byhash.cfg", "RobinHood in equality-by-hash mode refines SetTable keyed by hash", workers=6)
+    # "a negation hashes to one minus the hash" rests on FiniteField::negate (an anchor of this property): its residues at the
+    # boundaries 0, 1, P-1 for every exported prime, as logged by the semiring recorder and checked on limbs
+    record_and_validate(ctx, [("sr_ff_%d" % i, ["record", "semiring", "--seed", ctx.seed * 1000 + 700 + i, "--segments", 20])
+                              for i in range(1 if ctx.quick else 4)], "TraceSemiring", "TraceSemiring.cfg")
     # long histories of ONE hash-identified builder: N pseudo-random 6-variable functions with their conjunctions / disjunctions as
     # printed by TLC, all built in a single semantic SDD builder (tens of thousands of live nodes): every diagram must denote its set.
     # An identity narrower than the 64-bit field (truncated or re-mixed table hash) merges different functions in this regime.
